@@ -787,7 +787,9 @@ impl World {
                 };
                 let f = self.contracts[&contract_addr].vt.execute;
                 let resp = self.call_mut(&contract_addr, |d, e| f(d, e, info, msg.as_slice()))?;
-                self.process_response(&contract_addr, resp, depth, log)
+                let data = self.process_response(&contract_addr, resp, depth, log)?;
+                // wasmd hands the *protobuf-encoded MsgExecuteContractResponse* to the caller's `reply`
+                Ok(data.map(|d| wrap_execute_response(d.as_slice())))
             }
             CosmosMsg::Ibc(IbcMsg::SendPacket {
                 channel_id,
@@ -815,6 +817,26 @@ impl World {
             }
         }
     }
+}
+
+/// protobuf `MsgExecuteContractResponse { bytes data = 1; }` (proto3: an empty field is omitted)
+pub fn wrap_execute_response(d: &[u8]) -> Binary {
+    let mut out = Vec::with_capacity(d.len() + 6);
+    if !d.is_empty() {
+        out.push(0x0a);
+        let mut n = d.len() as u64;
+        loop {
+            let b = (n & 0x7f) as u8;
+            n >>= 7;
+            if n == 0 {
+                out.push(b);
+                break;
+            }
+            out.push(b | 0x80);
+        }
+        out.extend_from_slice(d);
+    }
+    Binary::from(out)
 }
 
 pub const BURN: &str = "\u{0}burn";
